@@ -535,3 +535,218 @@ Theorem C01_decode_file_of_encode_file :
          decode_file d p f = decode_chunks d p (en_header e) (en_chunks e ++ [(CH_END, FILE_FOOTER)]).
 Proof. exact decode_file_of_encode_file. Qed.
 
+(* ==== whole chunks (Proofs/BinChunkFacts.v): the PROP chunk the writer emits is read back by decode_prop into exactly one
+   add_property per instance of the class (generic in the column law, so it composes with every col_roundtrip_* above); the Name
+   chunk; the INST chunk registers the class's referents in order under consecutive fresh labels; the SSTR chunk *)
+From RbxVerif Require Import BinSafe BinChunkFacts.
+
+Theorem C01_decode_prop_chunk :
+  forall (d : db) (p : dec_params) (st : dstate) (type_id : N) (cname : bytes) 
+         (rs : list Z) (pname : list N) (ty : wire_type) (col name : bytes) (cty : N)
+         (migration : option (bytes * migop)) (vs' : list value),
+       type_id < 2 ^ 32 ->
+       lookup type_id (ds_types st) = Some {| dt_name := cname; dt_referents := rs |} ->
+       N.of_nat (Datatypes.length pname) < 2 ^ 32 ->
+       alloc_ok (dp_lim p) (N.of_nat (Datatypes.length pname)) = true ->
+       utf8_valid pname = true ->
+       bytes_eqb pname NAME = false ->
+       find_canonical_property d ty cname pname = Ok (Some (name, cty, migration)) ->
+       run_chunk (dec_col ty cty (prop_dctx p st) (Datatypes.length rs)) col = Ok vs' ->
+       decode_prop d p st (w_le32 type_id ++ w_bstr pname ++ w_u8 (wire_id ty) ++ col) =
+       ' insts <-
+       apply_values (fun (i : dinst) (v : value) => add_property p i name migration v) (ds_insts st) rs vs';;
+       Ok (with_insts st insts).
+Proof. exact decode_prop_chunk. Qed.
+
+Theorem C01_prop_chunk_roundtrip :
+  forall (d : db) (p : dec_params) (st : dstate) (type_id : N) (cname : bytes) 
+         (rs : list Z) (pname : list N) (ty : wire_type) (ctx : enc_ctx) (vs : list value) 
+         (col name : bytes) (cty : N) (migration : option (bytes * migop)) (vs' : list value),
+       type_id < 2 ^ 32 ->
+       lookup type_id (ds_types st) = Some {| dt_name := cname; dt_referents := rs |} ->
+       Datatypes.length rs = Datatypes.length vs ->
+       N.of_nat (Datatypes.length pname) < 2 ^ 32 ->
+       alloc_ok (dp_lim p) (N.of_nat (Datatypes.length pname)) = true ->
+       utf8_valid pname = true ->
+       bytes_eqb pname NAME = false ->
+       enc_col ty ctx vs = Ok col ->
+       find_canonical_property d ty cname pname = Ok (Some (name, cty, migration)) ->
+       (exists b : bytes,
+          enc_col ty ctx vs = Ok b /\
+          dec_col ty cty (prop_dctx p st) (Datatypes.length vs) (b ++ []) = Ok (vs', [])) ->
+       decode_prop d p st (w_le32 type_id ++ w_bstr pname ++ w_u8 (wire_id ty) ++ col) =
+       ' insts <-
+       apply_values (fun (i : dinst) (v : value) => add_property p i name migration v) (ds_insts st) rs vs';;
+       Ok (with_insts st insts).
+Proof. exact prop_chunk_roundtrip. Qed.
+
+Theorem C01_apply_values_spec :
+  forall (A : Type),
+  forall (f : dinst -> A -> dinst) (rs : list Z) (insts : list (Z * dinst)) (vs : list A),
+       NoDup rs ->
+       (forall r : Z, In r rs -> zfind r insts <> None) ->
+       exists insts' : list (Z * dinst),
+         apply_values f insts rs vs = Ok insts' /\
+         (forall (k : nat) (r : Z) (v : A),
+          nth_error rs k = Some r ->
+          nth_error vs k = Some v ->
+          exists i : dinst, zfind r insts = Some i /\ zfind r insts' = Some (f i v)) /\
+         (forall z : Z, ~ In z rs -> zfind z insts' = zfind z insts) /\
+         (forall (k : nat) (r : Z),
+          nth_error rs k = Some r -> nth_error vs k = None -> zfind r insts' = zfind r insts).
+Proof. intros A. exact (@apply_values_spec A). Qed.
+
+Theorem C01_decode_prop_chunk_state_inv :
+  forall (d : db) (p : dec_params) (st : dstate) (type_id : N) (cname : bytes) 
+         (rs : list Z) (pname : list N) (ty : wire_type) (col name : bytes) (cty : N)
+         (migration : option (bytes * migop)) (vs' : list value),
+       inv st ->
+       type_id < 2 ^ 32 ->
+       lookup type_id (ds_types st) = Some {| dt_name := cname; dt_referents := rs |} ->
+       N.of_nat (Datatypes.length pname) < 2 ^ 32 ->
+       alloc_ok (dp_lim p) (N.of_nat (Datatypes.length pname)) = true ->
+       utf8_valid pname = true ->
+       bytes_eqb pname NAME = false ->
+       find_canonical_property d ty cname pname = Ok (Some (name, cty, migration)) ->
+       run_chunk (dec_col ty cty (prop_dctx p st) (Datatypes.length rs)) col = Ok vs' ->
+       NoDup rs ->
+       exists insts' : list (Z * dinst),
+         decode_prop d p st (w_le32 type_id ++ w_bstr pname ++ w_u8 (wire_id ty) ++ col) =
+         Ok (with_insts st insts') /\
+         (forall (k : nat) (r : Z) (v : value),
+          nth_error rs k = Some r ->
+          nth_error vs' k = Some v ->
+          exists i : dinst,
+            zfind r (ds_insts st) = Some i /\ zfind r insts' = Some (add_property p i name migration v)) /\
+         (forall z : Z, ~ In z rs -> zfind z insts' = zfind z (ds_insts st)) /\
+         (forall (k : nat) (r : Z),
+          nth_error rs k = Some r -> nth_error vs' k = None -> zfind r insts' = zfind r (ds_insts st)).
+Proof. exact decode_prop_chunk_state_inv. Qed.
+
+Theorem C01_prop_chunk_written_roundtrip :
+  forall (d : db) (ep : enc_params) (dp : dec_params) (dom : cdom) (ctx : enc_ctx) 
+         (ti : type_info) (canon : bytes) (pi : prop_info) (nm payload : bytes) (st : dstate) 
+         (cname : bytes) (rs : list Z) (name : bytes) (cty : N) (migration : option (bytes * migop)),
+       prop_chunk ep dom ctx ti (canon, pi) = Ok (nm, payload) ->
+       ti_id ti < 2 ^ 32 ->
+       lookup (ti_id ti) (ds_types st) = Some {| dt_name := cname; dt_referents := rs |} ->
+       Datatypes.length rs = Datatypes.length (ti_instances ti) ->
+       N.of_nat (Datatypes.length (pi_ser_name pi)) < 2 ^ 32 ->
+       alloc_ok (dp_lim dp) (N.of_nat (Datatypes.length (pi_ser_name pi))) = true ->
+       utf8_valid (pi_ser_name pi) = true ->
+       bytes_eqb (pi_ser_name pi) NAME = false ->
+       find_canonical_property d (pi_type pi) cname (pi_ser_name pi) = Ok (Some (name, cty, migration)) ->
+       exists insts : list inst,
+         Forall2 (fun (r : N) (i : inst) => find_inst dom r = Some i) (ti_instances ti) insts /\
+         nm = CH_PROP /\
+         (forall vs' : list value,
+          (exists b : bytes,
+             enc_col (pi_type pi) ctx (List.map (prop_value ep canon pi (ep_order ep (pi_aliases pi))) insts) =
+             Ok b /\
+             dec_col (pi_type pi) cty (prop_dctx dp st)
+               (Datatypes.length (List.map (prop_value ep canon pi (ep_order ep (pi_aliases pi))) insts))
+               (b ++ []) = Ok (vs', [])) ->
+          decode_prop d dp st payload =
+          ' insts' <-
+          apply_values (fun (i : dinst) (v : value) => add_property dp i name migration v) 
+            (ds_insts st) rs vs';; Ok (with_insts st insts')).
+Proof. exact prop_chunk_written_roundtrip. Qed.
+
+Theorem C01_decode_prop_name_chunk :
+  forall (d : db) (p : dec_params) (st : dstate) (type_id : N) (cname : bytes) 
+         (rs : list Z) (ty : wire_type) (names : list bytes) (tail : list N),
+       type_id < 2 ^ 32 ->
+       lookup type_id (ds_types st) = Some {| dt_name := cname; dt_referents := rs |} ->
+       Datatypes.length rs = Datatypes.length names ->
+       alloc_ok (dp_lim p) 4 = true ->
+       Forall (fun s : bytes => bstr_ok (dp_lim p) s = true /\ utf8_valid s = true) names ->
+       decode_prop d p st
+         (w_le32 type_id ++ w_bstr NAME ++ w_u8 (wire_id ty) ++ flat_map w_bstr names ++ tail) =
+       ' insts <- apply_values set_name (ds_insts st) rs names;; Ok (with_insts st insts).
+Proof. exact decode_prop_name_chunk. Qed.
+
+Theorem C01_name_prop_chunk_written_roundtrip :
+  forall (d : db) (ep : enc_params) (dp : dec_params) (dom : cdom) (ctx : enc_ctx) 
+         (ti : type_info) (aliases : list bytes) (dflt : value) (nm payload : bytes) 
+         (st : dstate) (cname : bytes) (rs : list Z),
+       prop_chunk ep dom ctx ti
+         (NAME,
+          {|
+            pi_type := WString;
+            pi_ser_name := NAME;
+            pi_aliases := aliases;
+            pi_default := dflt;
+            pi_migration := None
+          |}) = Ok (nm, payload) ->
+       ti_id ti < 2 ^ 32 ->
+       lookup (ti_id ti) (ds_types st) = Some {| dt_name := cname; dt_referents := rs |} ->
+       Datatypes.length rs = Datatypes.length (ti_instances ti) ->
+       alloc_ok (dp_lim dp) 4 = true ->
+       (forall (r : N) (i : inst),
+        In r (ti_instances ti) ->
+        find_inst dom r = Some i -> bstr_ok (dp_lim dp) (i_name i) = true /\ utf8_valid (i_name i) = true) ->
+       exists insts : list inst,
+         Forall2 (fun (r : N) (i : inst) => find_inst dom r = Some i) (ti_instances ti) insts /\
+         nm = CH_PROP /\
+         decode_prop d dp st payload =
+         ' insts' <- apply_values set_name (ds_insts st) rs (List.map i_name insts);;
+         Ok (with_insts st insts').
+Proof. exact name_prop_chunk_written_roundtrip. Qed.
+
+Theorem C01_decode_inst_payload :
+  forall (lim : option N) (st : dstate) (type_id : N) (cname : list N) (service : bool) 
+         (ids : list Z) (marker : list N),
+       type_id < 2 ^ 32 ->
+       N.of_nat (Datatypes.length cname) < 2 ^ 32 ->
+       alloc_ok lim (N.of_nat (Datatypes.length cname)) = true ->
+       utf8_valid cname = true ->
+       N.of_nat (Datatypes.length ids) < 2 ^ 32 ->
+       alloc_ok lim (4 * N.of_nat (Datatypes.length ids)) = true ->
+       Forall (fun v : Z => in_i32 v = true) ids ->
+       decode_inst lim st
+         (w_le32 type_id ++
+          w_bstr cname ++
+          w_bool service ++ w_le32 (N.of_nat (Datatypes.length ids)) ++ enc_ref_array ids ++ marker) =
+       Ok (inst_register st type_id cname ids, marker).
+Proof. exact decode_inst_payload. Qed.
+
+Theorem C01_inst_chunk_roundtrip :
+  forall (lim : option N) (st : dstate) (refs : list (N * Z)) (cname : bytes) 
+         (ti : type_info) (nm payload : bytes),
+       inst_chunk refs (cname, ti) = Ok (nm, payload) ->
+       ti_id ti < 2 ^ 32 ->
+       N.of_nat (Datatypes.length cname) < 2 ^ 32 ->
+       alloc_ok lim (N.of_nat (Datatypes.length cname)) = true ->
+       utf8_valid cname = true ->
+       N.of_nat (Datatypes.length (ti_instances ti)) < 2 ^ 32 ->
+       alloc_ok lim (4 * N.of_nat (Datatypes.length (ti_instances ti))) = true ->
+       (forall (r : N) (z : Z), In r (ti_instances ti) -> lookup r refs = Some z -> in_i32 z = true) ->
+       exists ids : list Z,
+         Forall2 (fun (r : N) (z : Z) => lookup r refs = Some z) (ti_instances ti) ids /\
+         nm = CH_INST /\ run_chunk (decode_inst lim st) payload = Ok (inst_register st (ti_id ti) cname ids).
+Proof. exact inst_chunk_roundtrip. Qed.
+
+Theorem C01_fresh_insts_spec :
+  forall (cname : bytes) (ids : list Z) (insts : list (Z * dinst)) (next : N),
+       NoDup ids ->
+       (forall (k : nat) (id : Z),
+        nth_error ids k = Some id ->
+        zfind id (fst (fresh_insts cname ids insts next)) =
+        Some
+          {|
+            di_label := next + N.of_nat k;
+            di_class := cname;
+            di_name := cname;
+            di_props := [];
+            di_children := []
+          |}) /\
+       (forall z : Z, ~ In z ids -> zfind z (fst (fresh_insts cname ids insts next)) = zfind z insts).
+Proof. exact fresh_insts_spec. Qed.
+
+Theorem C01_sstr_chunk_roundtrip :
+  forall (lim : option N) (l : list bytes) (rest : list N),
+       N.of_nat (Datatypes.length l) < 2 ^ 32 ->
+       Forall (fun s : bytes => bstr_ok lim s = true) l ->
+       decode_sstr lim (sstr_payload l ++ rest) = Ok (l, rest).
+Proof. exact sstr_chunk_roundtrip. Qed.
+
